@@ -974,10 +974,18 @@ class ProgGen:
     def stmt_mixed_expr(self, depth: int, env) -> None:
         r = self.rng
         name = self.fresh("x")
-        form = r.choice(["tern", "arith", "cast", "cmp", "list"])
+        form = r.choice(["tern", "tern_bool", "arith", "cast", "cmp", "list"])
         i1, i2 = self.int_expr(env, 2), self.int_expr(env, 2)
         f1 = self.float_expr(env, 2)
-        if form == "tern":
+        if form == "tern_bool":
+            # a bool arm and a float arm: the join is float. Python keeps True/False in the bool case, so the name is
+            # only observed through an addition (True + 0.25 == 1.25 on both sides) and not reused afterwards.
+            b1 = self.bool_expr(env, 2)
+            arms = (b1, f1) if self.chance(0.5) else (f1, b1)
+            self.emit(depth, f"{name} = ({arms[0]} if {self.bool_expr(env, 1)} else {arms[1]})")
+            if "mon" in env:
+                self.emit(depth, f"mon.write({name} + 0.25)")
+        elif form == "tern":
             self.emit(depth, f"{name} = ({i1} if {self.bool_expr(env, 1)} else {f1})")
             env[name] = "float"
         elif form == "arith":
